@@ -3,7 +3,7 @@ from .common import *
 
 RULE = ("every secret-bearing type of the library (found by the extractor: all structs that own seed bytes, per-tree seeds or chain values) is populated with marker bytes, "
         "then zeroize()d in place and, separately, dropped in place; surviving marker bytes in the value's memory are counted; trait membership (Zeroize, ZeroizeOnDrop) is "
-        "probed at run time; the last signature of several key shapes hands the callback a key without seed bytes; plus the kernel-checked verdict on the extracted declaration table")
+        "probed at run time; the last signature of several key shapes hands the callback a key without seed bytes; plus the kernel-checked verdict on the extracted declaration table; the exhaustion probe under the C14 configurations (incl. a one-level build)")
 ASSUMPTIONS = ["that the compiler does not elide the volatile writes, and copies left behind by moves / plain stack temporaries, cannot be exhibited by this probe",
                "the probe instantiates the generic types with SHA-256/256"]
 
@@ -88,6 +88,28 @@ def run(ctx):
         k = unhx(f.get("cb", f.get("sk", "-")))
         if not a.startswith("ok") or len(k) != 16 + c.meta["n"] or any(x == 0xA5 for x in k) or k[16:] != bytes(c.meta["n"]):
             ctx.fail("the exhausted private key handed over still contains seed bytes", [c.line], a[-160:], "0^8 ff^8 0^n")
+    # ... in the constrained builds as well (single-level and two-level builds have their own end of lifetime)
+    from . import C14
+    for cfg in (C14.CONFIGS_QUICK if ctx.tier == "quick" else C14.CONFIGS_THOROUGH):
+        L = int(cfg["HBS_LMS_MAX_ALLOWED_HSS_LEVELS"])
+        hs = [int(x) for x in cfg["HBS_LMS_TREE_HEIGHTS"].split(", ")]
+        ws = [int(x) for x in cfg["HBS_LMS_WINTERNITZ_PARAMETERS"].split(", ")]
+        if not ctx.open(cfg):
+            continue
+        cases = []
+        for l in range(1, L + 1):
+            ps = [({1: 2, 2: 2, 4: 3, 8: 4}[ws[i]], 5 if hs[i] >= 5 else 1) for i in range(l)]
+            for H in ("S32", "S16"):
+                n = HASHES[H]
+                seed = bytes([0xA5]) * n
+                last = (1 << sum(heights_of(ps))) - 1
+                cases.append(Case(sign_line(H, sk_blob(H, ps, seed, last), b"last"), "cfg/exhaust/last/L%d" % l, {"n": n}))
+                cases.append(Case(trysign_line(H, sk_blob(H, ps, seed, last), b"last"), "cfg/exhaust/last-inmem/L%d" % l, {"n": n}))
+        for c, a, b in ctx.both(cases, None):
+            f = fields(a)
+            k = unhx(f.get("cb", f.get("sk", "-")))
+            if not a.startswith("ok") or len(k) != 16 + c.meta["n"] or any(x == 0xA5 for x in k) or k[16:] != bytes(c.meta["n"]):
+                ctx.fail("the exhausted private key handed over still contains seed bytes (build %s)" % json.dumps(cfg), [c.line], a[-160:], "0^8 ff^8 0^n")
     # declaration table (same rule as Props/C16.lean, evaluated here for the evidence)
     meta_decls = parse_decls()
     owners = secret_closure(meta_decls)
